@@ -358,6 +358,24 @@ func sharedOperandCases(r *Run) {
 		r.Sample(q.stats())
 	}
 	r.Discharge()
+	// MulAdd (and through it Add / Sub / Mul): the real body runs here (its contract says nothing about
+	// what happens to the operands); the addend is a sum that is read again afterwards
+	var cm fieldCase
+	cm = fieldCase{name: "Add via MulAdd[addend used again afterwards]", alias: true, unhook: []string{"goldilocks.Chip.MulAdd"}, bound: "all x, a (symbolic; 2x < p in the replay); sel = x + x, Add(a, sel), then sel - x", build: func(fc *fctx) ([]frontend.Variable, []*ref.N) {
+		// a is created before x: the builder keeps the terms of an expression sorted by wire, so after
+		// an in-place extension the old (shorter) view of the accumulator starts with a's term
+		a, _ := fc.glIn("a")
+		x, rx := fc.glIn("x")
+		// x + x: in gnark's R1CS builder the two terms merge, which leaves the expression with spare
+		// capacity - the situation in which MulAcc extends its first operand in place
+		sel := fc.chip.AddNoReduce(x, x)
+		fc.chip.Add(a, sel)
+		out := fc.chip.Reduce(fc.chip.SubNoReduce(sel, x))
+		return []frontend.Variable{out.Limb}, []*ref.N{rx}
+	}}
+	cm.acceptReplay = func() string { return sharedOperandReplay(cm, r) }
+	runFieldCase(r, "shared-operand", cm, nil)
+	r.Discharge()
 }
 
 // sharedOperandReplay: random canonical inputs, the reference's results as expected outputs, on the
@@ -373,6 +391,9 @@ func sharedOperandReplay(c fieldCase, r *Run) string {
 			env[n] = ref.UFEval(fmt.Sprintf("shared-operand-%d-%d", r.Seed, seed), i, false, nil)
 			if his[i].Cmp(sym.Pm1) < 0 {
 				env[n].Mod(env[n], new(big.Int).Add(his[i], big.NewInt(1)))
+			}
+			if n == "x" || n == "y" {
+				env[n].Mod(env[n], new(big.Int).Lsh(big.NewInt(1), 62)) // keeps x + y canonical for the honest hints
 			}
 		}
 		memo := map[*ref.N]*big.Int{}
